@@ -192,12 +192,12 @@ class World:
             self.vlog.append(("schema", _path, _sv["name"], id(cfg), True))
         return check
 
-    def _log_field_validator(self, field, path, name):
+    def _log_field_validator(self, field, path, name, node=None):
         from .refmodel import run_validator
 
         def check(cfg, value, _path=path, _name=name):
             try:
-                out = run_validator(_name, value)
+                out = run_validator(_name, value, cfg, node)
             except ValueError:
                 self.vlog.append(("field", _path, _name, id(cfg), False))
                 raise
@@ -246,7 +246,7 @@ class World:
             else:
                 field = specs.build_field(cc, child, **self._default(child, cpath))
                 if child.get("validator"):
-                    self._log_field_validator(field, cpath, child["validator"])
+                    self._log_field_validator(field, cpath, child["validator"], child)
                 schema._add_field(key, field)
         return schema
 
